@@ -1206,7 +1206,7 @@ def eval_enqueue(ctx):
 
 
 # --------------------------------------------------------------------------- find_workflow on a symbolic directory tree
-def eval_find_workflow(ctx, spec, cwd, existing):
+def eval_find_workflow(ctx, spec, cwd, existing, links=None):
     """utils.find_workflow(spec) with the invoking directory `cwd` and the set of existing files; returns (path, obj) / 'raise <kind>' / '<unsupported>'."""
     import posixpath
     fw = ctx.index.func("gwf.utils:find_workflow")
@@ -1216,6 +1216,23 @@ def eval_find_workflow(ctx, spec, cwd, existing):
 
     def h_join(recv, *parts):
         return P(posixpath.join(str(recv), *[str(p) for p in parts]))
+
+    links = dict(links or {})
+
+    def h_resolve(p_, *a, **k):
+        # what Path.resolve()/os.path.realpath do: make absolute, collapse '..', and FOLLOW symbolic links (of the file or of a directory on the way)
+        s_ = str(p_)
+        if not s_.startswith("/"):
+            s_ = posixpath.join(cwd, s_)
+        s_ = posixpath.normpath(s_)
+        for _ in range(4):
+            for src in sorted(links, key=len, reverse=True):
+                if s_ == src or s_.startswith(src + "/"):
+                    s_ = posixpath.normpath(links[src] + s_[len(src):])
+                    break
+            else:
+                break
+        return P(s_)
 
     looked = []
     hooks = {
@@ -1228,7 +1245,11 @@ def eval_find_workflow(ctx, spec, cwd, existing):
         "getattr:parent": lambda o: P(posixpath.dirname(str(o))),
         "getattr:anchor": lambda o: "/" if str(o).startswith("/") else "",
         "getattr:parents": lambda o: [P(p) for p in _parents(str(o))],
-        "attr:resolve": lambda recv, *a, **k: recv, "attr:absolute": lambda recv: recv if str(recv).startswith("/") else P(posixpath.join(cwd, str(recv))),
+        "attr:resolve": h_resolve, "os.path.realpath": lambda p_, *a, **k: str(h_resolve(p_)), "attr:readlink": lambda recv: P(links.get(str(recv), str(recv))),
+        "os.readlink": lambda p_: links.get(str(p_), str(p_)),
+        "os.path.abspath": lambda p_: posixpath.normpath(str(p_) if str(p_).startswith("/") else posixpath.join(cwd, str(p_))),
+        "os.path.normpath": lambda p_: posixpath.normpath(str(p_)),
+        "attr:absolute": lambda recv: recv if str(recv).startswith("/") else P(posixpath.join(cwd, str(recv))),
         "os.path.exists": lambda p: (looked.append(str(p)) or str(p) in existing),
         "os.path.isabs": lambda p: str(p).startswith("/"),
         "os.path.dirname": lambda p: posixpath.dirname(str(p)),
@@ -1266,17 +1287,27 @@ def find_workflow_witness(ctx):
         ("no object name: default gwf", "wf.py", "/a/b", {"/a/wf.py"}, ("/a/wf.py", "gwf")),
         ("absolute path is taken as given, whatever the invoking directory", "/p/q/wf.py:gwf", "/a/b", {"/p/q/wf.py", "/a/b/wf.py"}, ("/p/q/wf.py", "gwf")),
         ("relative path with a directory part", "sub/wf.py:gwf", "/a/b", {"/a/sub/wf.py"}, ("/a/sub/wf.py", "gwf")),
+        ("path with '..' in it", "../other/wf.py:gwf", "/a/b", {"/a/other/wf.py", "/a/b/../other/wf.py"}, ("/a/other/wf.py", "gwf")),
+        # the project is where the file the user points at lives: a workflow file that is a symbolic link to a shared pipeline keeps its own directory
+        ("the workflow file is a symbolic link to a shared pipeline", "workflow.py:gwf", "/a/b", {"/a/workflow.py"}, ("/a/workflow.py", "gwf"), {"/a/workflow.py": "/shared/pipeline.py"}),
+        ("-f through a symlinked directory", "/home/u/proj/wf.py:gwf", "/x", {"/home/u/proj/wf.py"}, ("/home/u/proj/wf.py", "gwf"), {"/home/u/proj": "/scratch/u/proj"}),
     ]
     diffs, n = [], 0
-    for label, spec, cwd, existing, want in rows:
-        got, looked = eval_find_workflow(ctx, spec, cwd, existing)
+    import posixpath as _pp
+    for row in rows:
+        label, spec, cwd, existing, want = row[:5]
+        links = row[5] if len(row) > 5 else None
+        got, looked = eval_find_workflow(ctx, spec, cwd, existing, links)
+        if isinstance(got, tuple) and isinstance(got[0], str):
+            got = (_pp.normpath(got[0]), got[1])      # '..' collapsed or not is the same location
         if isinstance(got, str) and got.startswith("<unsupported: loop bound"):
             got = "no termination (the search never stops at the root directory)"
         if isinstance(got, str) and got.startswith("<unsupported"):
             return n, diffs, got
         n += 1
         if got != want:
-            diffs.append(f"find_workflow({spec!r}) invoked in {cwd} with files {sorted(existing)} [{label}] gives {got}, expected {want}")
+            diffs.append(f"find_workflow({spec!r}) invoked in {cwd} with files {sorted(existing)}{' and links ' + str(links) if links else ''} [{label}] gives {got}, expected {want}"
+                         + (": the project directory (configuration, .gwf state, relative paths) moves to where the link points" if links else ""))
     return n, diffs, None
 
 
@@ -1384,6 +1415,13 @@ def eval_config_session(ctx):
         c3 = invocation()
         run("third invocation: a is gone, the others stay", lambda: (do("get", c3, "a"), do("get", c3, "flag"), do("get", c3, "backend.slurm.log_mode")),
             ("<not set>", False, "merged"))
+        # overwriting a stored value with one that merely COMPARES equal (True == 1, False == 0 in Python) must still store the new value
+        stored = lambda k: repr((disk["content"] or {}).get(k, "<absent>"))
+        run("set k yes, then set k 1: the file holds", lambda: (do("set", c3, "k", "yes"), do("set", c3, "k", "1"), stored("k"))[2], "1")
+        run("... and get k prints", lambda: repr(do("get", c3, "k")), "1")
+        run("set z 0, then set z no: the file holds", lambda: (do("set", c3, "z", "0"), do("set", c3, "z", "no"), stored("z"))[2], "False")
+        run("set z no, then set z 0: the file holds", lambda: (do("set", c3, "z", "0"), stored("z"))[1], "0")
+        run("setting a key to the value it already has keeps it", lambda: (do("set", c3, "z", "0"), stored("z"))[1], "0")
     except (Raised, Unsupported) as exc:
         steps.append(("third invocation loads the file", f"<{type(exc).__name__}: {exc}>", "loads what the second one saved"))
     return steps
